@@ -50,7 +50,7 @@ static vector<unsigned char> alphabet() {
 static string clean(const string& s) {
   string r = s.substr(0, 200);
   for (auto& c : r)
-    if (c == '\t' || c == '\n' || c == '\r') c = ' ';
+    if ((unsigned char)c < 0x20 || (unsigned char)c >= 0x7F) c = '?';  // what() may quote raw input bytes
   return r;
 }
 
